@@ -17,7 +17,7 @@ TECHNIQUE = ('differential (command line vs library) and metamorphic (equivalent
              'relations over Hypothesis-generated documents and option vectors, all run through main() in-process')
 RULE = ("Cases: a document pair, the types of the two files (json, json5, yaml; independently chosen, so the two files "
         "often have different types), option vector (dict strategy, list-edit mode, -j/-jl/-jd) and a misleading "
-        "extension per file; a quarter of the cases are XML documents (both files XML, attribute and element mutations) and a third to a half add --html. Relations, each comparing stdout bytes and return value: (a) command line == library "
+        "extension per file; modes full / -e / -d, optionally --format F; a fifth of the cases are CSV tables (cells with embedded LF, CRLF and lone CR, files with DOS or UNIX line ends); a quarter of the cases are XML documents (both files XML, attribute and element mutations) and a third to a half add --html. Relations, each comparing stdout bytes and return value: (a) command line == library "
         "(Filetype.build_tree + diff + formatter.print on Printer / HTMLPrinter(ansi_color=False, options=...), status 1 iff some "
         "edit has non-zero cost); (b) -k == --dict-strategy none; -j == -jl -jd; --from-T == --from-mime mime(T) and "
         "--to-T == --to-mime mime(T) for every registered type T able to read the file; (c) the same bytes stored under "
@@ -33,7 +33,7 @@ MANIFEST_TEXT = ("Command-line behaviour is compared with the library on the sam
                  "names, for both file positions and mixed file types.")
 MANIFEST_NOTE = "Trusts vf/cli.py's in-process driver; the library side replicates __main__'s documented steps."
 DESIGN_REF = 'DESIGN.md section 3, C14'
-SHRINK = {'docs': ['a', 'b'], 'enums': {'ds': 'auto', 'le': 'on', 'join': None, 'mode': 'full'}}
+SHRINK = {'docs': ['a', 'b'], 'enums': {'ds': 'auto', 'le': 'on', 'join': None, 'mode': 'full', 'format': None, 'html': False}}
 
 TYPES = ['json', 'json5', 'yaml']
 MISLEADING = ['csv', 'xml', 'json', 'yml', 'plist', 'json5', 'txt']
@@ -75,9 +75,10 @@ def cases(draw):
         b = respell(a, draw(st.integers(0, 2)))     # equal as numbers, spelled differently
     ds, le = draw(gen.options)
     return {'a': a, 'b': b, 'ft': draw(st.sampled_from(TYPES)), 'tt': draw(st.sampled_from(TYPES)), 'ds': ds, 'le': le,
-            'join': draw(st.sampled_from([None, '-j', '-jl', '-jd'])), 'mode': draw(st.sampled_from(['full', 'full', '-e'])),
+            'join': draw(st.sampled_from([None, '-j', '-jl', '-jd'])), 'mode': draw(st.sampled_from(['full', 'full', '-e', '-d'])),
             'fmis': draw(st.sampled_from(MISLEADING)), 'tmis': draw(st.sampled_from(MISLEADING)),
-            'html': draw(st.sampled_from([False, False, True]))}
+            'html': draw(st.sampled_from([False, False, True])),
+            'format': draw(st.sampled_from([None, None, 'json', 'yaml', 'xml', 'plist', 'json5', 'csv', 'html']))}
 
 
 @st.composite
@@ -89,26 +90,54 @@ def xml_cases(draw):
             'fmis': draw(st.sampled_from(MISLEADING)), 'tmis': draw(st.sampled_from(MISLEADING)), 'html': draw(st.booleans())}
 
 
+@st.composite
+def csv_cases(draw):
+    cells = st.sampled_from(['a', 'b', '1', '', 'x y', 'c,d', 'two\nlines', 'dos\r\nline', 'lone\rcr', 'q"r', ' pad '])
+    rows = st.lists(st.lists(cells, min_size=1, max_size=3), min_size=1, max_size=3)
+    a = draw(rows)
+    b = draw(st.one_of(st.just(a), rows, st.just(a + [draw(st.lists(cells, min_size=1, max_size=2))])))
+    ds, le = draw(gen.options)
+    return {'a': a, 'b': b, 'ft': 'csv', 'tt': 'csv', 'ds': ds, 'le': le, 'join': draw(st.sampled_from([None, '-j'])),
+            'mode': draw(st.sampled_from(['full', '-e', '-d'])), 'fmis': draw(st.sampled_from(MISLEADING)), 'tmis': draw(st.sampled_from(MISLEADING)),
+            'html': False, 'eol': draw(st.sampled_from(['\r\n', '\n'])), 'eol2': draw(st.sampled_from(['\r\n', '\n']))}
+
+
 def jobs(tier):
     n = 20 if tier == 'quick' else 320
-    return [{'n': n, 'shard': s} for s in range(16)] + [{'n': n // 3, 'shard': s, 'xml': True} for s in range(16)]
+    return [{'n': n, 'shard': s} for s in range(16)] + [{'n': n // 3, 'shard': s, 'xml': True} for s in range(16)] + \
+        [{'n': n // 3, 'shard': s, 'csv': True} for s in range(16)]
 
 
 def run_job(job, seed, sink):
-    if job.get('xml'):
+    if job.get('csv'):
+        hyp_drive(csv_cases(), job['n'], seed, sink)
+    elif job.get('xml'):
         hyp_drive(xml_cases(), job['n'], seed, sink)
     else:
         hyp_drive(cases(), job['n'], seed, sink)
 
 
 def valid(case):
+    if case.get('format') not in (None, 'json', 'yaml', 'xml', 'plist', 'json5', 'csv', 'html'):
+        return False
+    if case.get('ft') == 'csv' or case.get('tt') == 'csv':
+        return (case.get('ft') == case.get('tt') and case.get('ds') in common.DS and case.get('le') in common.LE
+                and gen.valid_case({'family': 'csv', 'a': case['a'], 'b': case['b']}))
     if case.get('ft') == 'xml' or case.get('tt') == 'xml':
         return (case.get('ft') == case.get('tt') and case.get('ds') in common.DS and case.get('le') in common.LE
                 and gen.valid_case({'family': 'xml', 'a': case['a'], 'b': case['b']}))
     return case.get('ft') in TYPES and case.get('tt') in TYPES and case.get('ds') in common.DS and case.get('le') in common.LE
 
 
-def dump(doc, t):
+def dump(doc, t, eol='\r\n'):
+    if t == 'csv':
+        import csv
+        import io
+        s_ = io.StringIO(newline='')
+        w = csv.writer(s_, lineterminator=eol)
+        for r in doc:
+            w.writerow(r)
+        return s_.getvalue()
     if t == 'xml':
         import xml.etree.ElementTree as ET
         return ET.tostring(gen.to_et(doc))
@@ -132,6 +161,8 @@ def base_args(case):
         args.append(case['mode'])
     if case.get('html'):
         args.append('--html')
+    if case.get('format'):
+        args += ['--format', case['format']]
     return args
 
 
@@ -147,17 +178,31 @@ def library(case, pa, pb):
     else:
         printer = Printer(out, ansi_color=False, quiet=True, options={'join_lists': jl, 'join_dict_items': jd})
     ff, tf = FT[case['ft']], FT[case['tt']]
+    out_ft = FT[case['format']] if case.get('format') else ff
     with printer:
         ta, tb = ff.build_tree(pa, opts), tf.build_tree(pb, opts)
         had = False
-        if case.get('mode') == '-e':
+        if case.get('mode') == '-d':
+            from colorama.ansi import Fore
+            formatter = out_ft.get_default_formatter()
+            for ancestors, edit in ta.get_all_edit_contexts(tb):
+                for i, node in enumerate(ancestors):
+                    if node.parent is not None:
+                        node.parent.print_parent_context(printer, for_child=node)
+                    if i == len(ancestors) - 1:
+                        with printer.color(Fore.BLUE):
+                            printer.write(" -> ")
+                        formatter.print(printer, edit)
+                printer.newline()
+                had = had or edit.has_non_zero_cost()
+        elif case.get('mode') == '-e':
             for e in ta.get_all_edits(tb):
                 printer.write(str(e))
                 printer.newline()
                 had = had or e.has_non_zero_cost()
         else:
             d = ta.diff(tb)
-            ff.get_default_formatter().print(printer, d)
+            out_ft.get_default_formatter().print(printer, d)
             stack = [d]
             while stack:
                 n = stack.pop()
@@ -181,7 +226,7 @@ def check(case):
     out = Outcome()
     ft, tt = case['ft'], case['tt']
     try:
-        da, db = dump(case['a'], ft), dump(case['b'], tt)
+        da, db = dump(case['a'], ft, case.get('eol', '\r\n')), dump(case['b'], tt, case.get('eol2', '\r\n'))
     except Exception:
         out.skipped = 'not-serialisable'
         return out
@@ -266,7 +311,7 @@ def check(case):
                 break
         # (d) the same file in both positions, the second one read as another type: command line vs library
         other = next(t for t in TYPES if t != ft)
-        if ft != 'xml':
+        if ft not in ('xml', 'csv'):
             case2 = dict(case, tt=other)
             r = cli.run_main([pa, pa] + ba + [f'--to-{other}'])
             try:
